@@ -233,7 +233,8 @@ def rule_real_normalisation(ctx):
         ok = got is not None and got[0] == mask and got[1] == sh and got[2] == 1
         ctx.ob('W.real', f, 'base %d: while m & %d == 0: m >>= %d; e += 1' % (base, mask, sh), ok, 'found %r' % (got,))
     # scale factor bounded
-    g = [n for n in walk_own(f.node) if isinstance(n, ast.If) and norm(n.test) == 'sf > 3' and raises_in(n.body)]
+    from sa import condeq
+    g = condeq.raising_guards(f.node, 'sf > 3', raises_in, walk_own)
     ctx.ob('W.real', f, 'scale factor limited to 2 bits', len(g) == 1, '')
 
 
@@ -409,7 +410,10 @@ def rule_constructed_yields(ctx):
     for q in ('codec.ber.decoder.BitStringPayloadDecoder.valueDecoder', 'codec.ber.decoder.OctetStringPayloadDecoder.valueDecoder'):
         f = ctx.func(q)
         cfg = ctx.cfg(f)
-        refusal = [t for t in cfg.stmt_nodes() if t.kind == 'test' and norm(t.ast.test) == 'not self.supportConstructedForm' and raises_in(t.ast.body)]
+        from sa import condeq
+        refusal = [t for t in cfg.stmt_nodes() if t.kind == 'test' and (
+            (condeq.same(t.ast.test, 'not self.supportConstructedForm') == 1 and raises_in(t.ast.body)) or
+            (condeq.same(t.ast.test, 'not self.supportConstructedForm') == -1 and raises_in(t.ast.orelse)))]
         if len(refusal) != 1:
             raise AnalysisError('constructed-form refusal not found in %s' % f.short)
         R = refusal[0]
@@ -670,14 +674,15 @@ def rule_constraint_denotation(ctx):
                'for [%d, %d] the guard refuses %s, the denotation refuses %s' % bad if bad else 'guard `%s`' % norm(t), node=ifs[0])
     # start <= stop enforced
     f = ctx.func(C + 'ValueRangeConstraint._setValues')
-    ok = any(isinstance(n, ast.If) and norm(n.test) == 'self.start > self.stop' and raises_in(n.body) for n in walk_own(f.node))
+    from sa import condeq
+    ok = bool(condeq.raising_guards(f.node, 'self.start > self.stop', raises_in, walk_own))
     ctx.ob('C14.denote', f, 'empty ranges (start > stop) refused at construction', ok, '')
     # single value / permitted alphabet
     f = ctx.func(C + 'SingleValueConstraint._testValue')
-    ok = any(isinstance(n, ast.If) and norm(n.test) == '%s not in self._set' % f.params()[1] and raises_in(n.body) for n in walk_own(f.node))
+    ok = bool(condeq.raising_guards(f.node, '%s not in self._set' % f.params()[1], raises_in, walk_own))
     ctx.ob('C14.denote', f, 'refuses exactly the values not in the set', ok, '')
     f = ctx.func(C + 'PermittedAlphabetConstraint._testValue')
-    ok = any(isinstance(n, ast.If) and norm(n.test) == 'not self._set.issuperset(%s)' % f.params()[1] and raises_in(n.body) for n in walk_own(f.node))
+    ok = bool(condeq.raising_guards(f.node, 'not self._set.issuperset(%s)' % f.params()[1], raises_in, walk_own))
     ctx.ob('C14.denote', f, 'refuses exactly the values with a character outside the alphabet', ok, '')
     for cname in ('SingleValueConstraint', 'PermittedAlphabetConstraint'):
         g = ctx.func(C + cname + '._setValues')
